@@ -116,8 +116,15 @@ func (s *space) add(class string, nt bool, f func(w *mc.W)) {
 	s.cases = append(s.cases, kase{class, nt, f})
 }
 
-func (s *space) run(c *mc.Ctx) {
-	c.Par(s.name, len(s.cases), func(w *mc.W, i int) {
+// run enumerates the space.  always: the space is part of the history that later sub-spaces observe (first pass and
+// workload before the ".../after-use" re-verification), so it is re-executed (verdicts discarded) when a later case is
+// replayed on its own.
+func (s *space) run(c *mc.Ctx, always ...bool) {
+	par := c.Par
+	if len(always) > 0 && always[0] {
+		par = c.ParAlways
+	}
+	par(s.name, len(s.cases), func(w *mc.W, i int) {
 		k := s.cases[i]
 		w.Eval(k.class, k.nt)
 		k.f(w)
@@ -236,40 +243,27 @@ func run(c *mc.Ctx) {
 			s = b(c)
 		}()
 		sizes[s.name] = len(s.cases)
-		s.run(c)
+		s.run(c, true)
 	}
 	// State between calls (T2/T3): the constants are live, mutable objects.  After every lookup flavour has been used
 	// with every index (negative ones included: conditional negation must happen on a copy) and after the public
 	// routines that consume the tables have run, everything is read and compared once more.
-	use := &space{name: "use-the-tables"}
-	use.add("use", true, func(w *mc.W) {
-		for _, b := range [][]byte{ref.LE32(big.NewInt(1)), ref.LE32(new(big.Int).Sub(ref.L, one)), bytes.Repeat([]byte{0x88}, 32), bytes.Repeat([]byte{0x77}, 32)} {
-			b[31] &= 0x7f
-			sc, err := scalar.NewFromBits(b)
-			if err != nil {
-				w.Fail("use/scalar", err.Error(), nil)
-				return
+	// The workload (workload.go): each step is one case, so a panic is attributed to it.
+	func() {
+		var use *space
+		defer func() {
+			if r := recover(); r != nil {
+				use = &space{name: "workload"}
+				use.add("workload", true, func(w *mc.W) {
+					w.Fail("panic/workload-setup", fmt.Sprintf("the library panicked while the workload inputs were being prepared: %v", r), nil)
+				})
+				use.run(c)
 			}
-			var p curve.EdwardsPoint
-			p.MulBasepoint(curve.ED25519_BASEPOINT_TABLE, sc)
-			p.DoubleScalarMulBasepointVartime(sc, curve.EIGHT_TORSION[1], sc)
-			p.TripleScalarMulBasepointVartime(sc, curve.ED25519_BASEPOINT_POINT, sc, curve.EIGHT_TORSION[3])
-			var r curve.RistrettoPoint
-			r.MulBasepoint(curve.RISTRETTO_BASEPOINT_TABLE, sc)
-			var u [64]byte
-			copy(u[:], b)
-			_, _ = r.SetUniformBytes(u[:])
-			var cr curve.CompressedRistretto
-			cr.SetRistrettoPoint(&r)
-			_ = p.IsSmallOrder()
-			_ = p.IsTorsionFree()
-			var fe field.Element
-			if _, err := fe.SetBytes(b); err == nil {
-				_ = elligator.EdwardsFlavor(&fe) // consumes the Elligator constants
-			}
-		}
-	})
-	use.run(c)
+		}()
+		use = workload(c)
+		sizes[use.name] = len(use.cases)
+		use.run(c, true)
+	}()
 	for _, b := range builders {
 		var s *space
 		func() {
@@ -769,7 +763,11 @@ func scalarConstants(c *mc.Ctx) *space {
 	s := &space{name: "scalar-constants"}
 	// limb layout of the active backend: 5 x 52 bits with the 64-bit field backend, 9 x 29 bits with the 32-bit one
 	width, n := uint(52), 5
-	if !is64 {
+	if f, ok := scalar.VerifC20Reg["constL"].(func() []uint64); ok {
+		if l := f(); len(l) == 9 { // the scalar backend's own limb count decides, not the configuration name
+			width, n = 29, 9
+		}
+	} else if !is64 {
 		width, n = 29, 9
 	}
 	wr, wrr, wlf := refconst.ScalarMontgomery(width, n)
